@@ -16,6 +16,7 @@ import (
 	"github.com/PowerDNS/lightningstream/syncer/receiver"
 	"github.com/PowerDNS/lightningstream/syncer/sweeper"
 	"github.com/PowerDNS/lightningstream/utils"
+	"github.com/PowerDNS/lightningstream/utils/vhook"
 	"github.com/PowerDNS/lmdb-go/lmdb"
 	"github.com/sirupsen/logrus"
 )
@@ -94,6 +95,7 @@ func (s *Syncer) syncLoop(ctx context.Context, env *lmdb.Env, r *receiver.Receiv
 
 	// Start tracker: Initial storage snapshots listed
 	s.startTracker.SetPassedInitialListing()
+	vhook.At(s.instanceID(), "sync.listed", 0)
 
 	hasSnapshots := r.HasSnapshots()
 	ownInstanceID := s.instanceID()
@@ -147,6 +149,7 @@ func (s *Syncer) syncLoop(ctx context.Context, env *lmdb.Env, r *receiver.Receiv
 	// be a snapshot from this instance that we do not want to overwrite
 	// with an empty one in the LMDB was reset.
 	if hasDataAtStart && !hasSnapshots {
+		vhook.At(s.instanceID(), "sync.before-initial-send", 0)
 		s.l.Info("Performing initial snapshot, because none exists yet")
 		actualTxnID, err := s.SendOnce(ctx, env)
 		if err != nil {
@@ -190,9 +193,11 @@ func (s *Syncer) syncLoop(ctx context.Context, env *lmdb.Env, r *receiver.Receiv
 		// Additionally, in shadow mode, every load will implicitly trigger a
 		// snapshot when local changes are detected.
 		// TODO: LSE: Maybe also add MaxConsecutiveUpdateLoads, or base this on time?
+		vhook.At(ownInstanceID, "sync.iter", uint64(lastSyncedTxnID))
 		nLoads := 0
 	loadReadySnapshotsLoop:
 		for {
+			vhook.At(ownInstanceID, "sync.before-next", uint64(lastSyncedTxnID))
 			instance, update := r.Next()
 			if instance == "" {
 				break loadReadySnapshotsLoop // no more ready remote snapshots
@@ -226,9 +231,11 @@ func (s *Syncer) syncLoop(ctx context.Context, env *lmdb.Env, r *receiver.Receiv
 				}
 			}
 
+			vhook.At(ownInstanceID, "sync.before-load", uint64(lastSyncedTxnID))
 			actualTxnID, localChanged, err := s.LoadOnce(
 				ctx, env, instance, update, lastSyncedTxnID)
 			update.Close() // releases the DecompressedSnapshotToken
+			vhook.At(ownInstanceID, "sync.after-load", uint64(actualTxnID))
 			if err != nil {
 				return err
 			}
@@ -282,6 +289,7 @@ func (s *Syncer) syncLoop(ctx context.Context, env *lmdb.Env, r *receiver.Receiv
 			).Info("Snapshot overdue, forcing one")
 		}
 
+		vhook.At(ownInstanceID, "sync.before-info", uint64(lastSyncedTxnID))
 		// Check for change in local LMDB
 		info, err := env.Info()
 		if err != nil {
@@ -312,11 +320,13 @@ func (s *Syncer) syncLoop(ctx context.Context, env *lmdb.Env, r *receiver.Receiv
 
 				// Store snapshot
 				if hasDataAtStart || lastSyncedTxnID > 0 {
+					vhook.At(ownInstanceID, "sync.before-send", uint64(lastSyncedTxnID))
 					actualTxnID, err := s.SendOnce(ctx, env)
 					if err != nil {
 						return err
 					}
 					lastSyncedTxnID = actualTxnID
+					vhook.At(ownInstanceID, "sync.after-send", uint64(lastSyncedTxnID))
 					// Start tracker: Initial snapshot stored
 					s.startTracker.SetPassedInitialStore()
 				} else if !warnedEmpty {
@@ -338,6 +348,7 @@ func (s *Syncer) syncLoop(ctx context.Context, env *lmdb.Env, r *receiver.Receiv
 			return nil
 		}
 
+		vhook.At(ownInstanceID, "sync.before-sleep", uint64(lastSyncedTxnID))
 		// Sleep before next check for snapshots and local changes
 		if err := utils.SleepContext(ctx, s.c.LMDBPollInterval); err != nil {
 			return err
@@ -522,6 +533,7 @@ func (s *Syncer) LoadOnce(ctx context.Context, env *lmdb.Env, instance string, u
 	}
 	tLoaded := time.Now()
 
+	vhook.At(s.instanceID(), "load.after-txn", uint64(txnID))
 	// If no actual changes were made, LMDB will not record the transaction
 	// and reuse the ID the next time, so we need to adjust the txnID we return.
 	info, err := env.Info()
